@@ -33,7 +33,7 @@ MACROS = ["FOO", "BAR", "BAZ"]
 
 
 def plan(tier, seed):
-    n = 700 if tier == "quick" else 20000
+    n = 2000 if tier == "quick" else 20000
     return [["main", i] for i in range(n)] + [["after_mol", i] for i in range(n // 10)]
 
 
